@@ -46,7 +46,9 @@ ASSUMPTIONS = [
     "size model: per-layer numbers compared exactly (integers); softmax/sigmoid outputs are only "
     "generated when output_bits == ref_bits; InputLayer counts input_bits x elements",
 ]
-BUDGET_S = {"quick": 70, "thorough": 840}
+# soft caps; the quick tier is count-limited (about 30 CPU-s per worker on an
+# idle 16-core machine), the cap only matters on an overloaded machine
+BUDGET_S = {"quick": 150, "thorough": 840}
 REQUIRED_LABELS = {
     "quick": ["dfs", "hyp", "trial_built", "pattern_group", "list_limit",
               "layer_indexes", "outside_limit_layer", "outside_index_layer",
@@ -477,11 +479,16 @@ def check_trial(h, decisions, origin):
         groups.setdefault((key, role), []).append((tl.name, set(cands)))
   for sc, sig, detail, key, klike in pending:
     if klike:
+      # the weight choice of the same group: from the trial's weight layers,
+      # or (when those are outside layer_indexes) from the tuner record
+      kc = set()
       for _, c in groups.get((key, "kernel"), []):
-        if c & klike:
-          sig = dict(sig, observed="group_kernel_choice")
-          detail += " -- it is the weight choice %r of the same group" % sorted(c & klike)
-          break
+        kc |= c
+      if chosen.get("%s_kernel_quantizer" % key) is not None:
+        kc.add(chosen["%s_kernel_quantizer" % key])
+      if kc & klike:
+        sig = dict(sig, observed="group_kernel_choice")
+        detail += " -- it is the weight choice %r of the same group" % sorted(kc & klike)
     fails.append((sc, sig, detail))
   # ---- (d) one choice per pattern group and role ---------------------------
   for (key, role), members in sorted(groups.items()):
@@ -749,14 +756,21 @@ def run(ctx):
   ns = (96 if ctx.quick else 3000) // ctx.n + 1
   core.hyp_run(ctx, G.size_case_st(), lambda c: oracle_size(ctx, c), ns,
                name="c20_size")
-  # Part A: exhaustive specs (keeps 30% of the budget for the sampled part)
-  exhaustive = run_dfs(ctx, reserve=0.3 * ctx.budget_s)
+  nt = (128 if ctx.quick else 4000) // ctx.n + 1
+  if ctx.quick:
+    # sampled specs/decisions first (count-limited, stops at the soft cap),
+    # then the ~120 leaves of the fixed specs, which are always judged
+    core.hyp_run(ctx, G.trial_case_st(), lambda c: oracle_trial(ctx, c), nt,
+                 name="c20_trial")
+    exhaustive = run_dfs(ctx, reserve=-1e9)
+  else:
+    # ~1000 leaves first (may use up to 60% of the budget), then sampling
+    exhaustive = run_dfs(ctx, reserve=0.4 * ctx.budget_s)
+    core.hyp_run(ctx, G.trial_case_st(), lambda c: oracle_trial(ctx, c), nt,
+                 name="c20_trial")
   # core.merge_results sums numeric info: dfs_complete_workers == number of
   # workers means every leaf of every fixed spec was judged.
   ctx.info["dfs_complete_workers"] = 1 if exhaustive else 0
-  nt = (128 if ctx.quick else 4000) // ctx.n + 1
-  core.hyp_run(ctx, G.trial_case_st(), lambda c: oracle_trial(ctx, c), nt,
-               name="c20_trial")
 
 
 def replay(ctx, case):
